@@ -188,3 +188,18 @@ func inExpunged(expunged map[*message]struct{}, msg *message) bool {
 //@   props C08:pre@call C09:pre@call
 //@   requires mbox != nil && mbox.tracker != nil && len(mbox.l) < 4294967296
 //@   requires imapserver.TrackerCount(mbox.tracker) == uint32(len(mbox.l))
+
+// RENAME never replaces an existing mailbox: the name that is checked for
+// existence is the name the mailbox is stored under (the new name without
+// trailing hierarchy delimiters), and on success the old entry is gone and the
+// new entry is the renamed mailbox.
+//
+//@ pure
+func userMailbox(u *User, name string) *Mailbox { return u.mailboxes[name] }
+
+//@ func (u *User) Rename(oldName, newName string) (err error)
+//@   props C09:post
+//@   requires u != nil && u.mailboxes != nil
+//@   ensures err == nil ==> old(userMailbox(u, strings.TrimRight(newName, string(mailboxDelim)))) == nil
+//@   ensures err == nil && oldName != strings.TrimRight(newName, string(mailboxDelim)) ==> userMailbox(u, strings.TrimRight(newName, string(mailboxDelim))) != nil && userMailbox(u, oldName) == nil
+//@   ensures err != nil ==> userMailbox(u, oldName) == old(userMailbox(u, oldName))
